@@ -136,6 +136,30 @@ def removal_scenarios(start, rng, n):
     return out
 
 
+def life_scenarios(start, lives, long_wait_every=0):
+    """EndpointLife.tla: every life of one endpoint (stub 0: added on/off, disabled, enabled, removed, re-added ..) next to an
+    endpoint that stays (stub 1); after every change every endpoint object that is not live any more is poked (what the
+    dispatcher does after a proxy error) and a request is sent: a health-check loop that survived answers with a probe"""
+    out = []
+    for i, life in enumerate(lives):
+        st = [{"k": "apply", "cluster": cluster("c1", {1: "on"}, [])}, {"k": "quiesce"}, {"k": "waitready", "name": "c1", "ready": [1]}]
+        for j, m in enumerate(life):
+            servers = {1: "on"}
+            if m != "gone":
+                servers[0] = m
+            st += [{"k": "apply", "cluster": cluster("c1", servers, [])}, {"k": "quiesce"},
+                   {"k": "waitready", "name": "c1", "ready": sorted(s for s, x in servers.items() if x == "on")},
+                   {"k": "poke"}, {"k": "quiesce"},
+                   {"k": "req", "id": "r%d" % j, "host": "c1", "method": "GET", "path": "/apis/apps/v1/namespaces/d/deployments", "token": "tok-alice", "resp": {"status": 200, "bodySize": 2}},
+                   {"k": "req", "id": "q%d" % j, "host": "c1", "method": "GET", "path": "/apis/apps/v1/namespaces/d/deployments", "token": "tok-alice", "resp": {"status": 200, "bodySize": 2}}]
+        if long_wait_every and i % long_wait_every == 0:
+            st += [{"k": "sleep", "n": 5600}, {"k": "quiesce"}]      # one full health-check interval: a loop that survived ticks by itself
+        st += [{"k": "delete", "name": "c1"}, {"k": "quiesce"}, {"k": "poke"}, {"k": "quiesce"},
+               {"k": "req", "id": "end-marker", "host": "nobody", "method": "GET", "path": "/version", "token": "tok-alice"}]
+        out.append({"id": start + i, "stubs": 4, "tokens": TOK, "authz": [], "authzDefault": "deny", "steps": st, "life": life})
+    return out
+
+
 def picks_scenarios(start, rng, n):
     out = []
     for i in range(n):
@@ -268,6 +292,15 @@ def run(prop, tier, replay):
                 if len(hists) < 10:
                     raise Infra("too few histories")
                 scs += [from_hist(i + 1, h, rng) for i, h in enumerate(hists)]
+            if prop in ("C03", "C15"):
+                lf = vlib.tlc("dataplane", "EndpointLife", "EndpointLife.cfg", workers=2, timeout=600, consts={"MaxLen": 4 if tier == "quick" else 6})
+                if lf.violation:
+                    raise Infra("EndpointLife.tla violates %s" % lf.violated())
+                lives = [json.loads(x) if isinstance(x, str) else x for x in lf.json_prints("LIFE")]
+                if len(lives) < 20:
+                    raise Infra("too few endpoint lives")
+                states, trans = states + lf.distinct, trans + lf.generated
+                scs += life_scenarios(830001, lives, long_wait_every=0 if tier == "quick" else 10)
             if prop == "C03":
                 scs.append(residual_probe_scenario(800001))
             if prop == "C15":
